@@ -78,15 +78,57 @@ class Session(object):
                 continue
             if prop is None or prop in sp.props or any(prop in (c.props or ()) for c in sp.ensures):
                 out.append(full)
+        if prop is not None:
+            # every contract a claimed function relies on is checked in the same run: close over static callees
+            seen = set(out)
+            work = list(out)
+            while work:
+                f = work.pop()
+                fn = self.prog.funcs.get(f)
+                if fn is None:
+                    continue
+                for b in fn['blocks']:
+                    for ins in b['instrs']:
+                        if ins['op'] in ('Call', 'Go', 'Defer'):
+                            cal = ins['call'].get('static')
+                            if cal and cal not in seen and cal in self.prog.funcs:
+                                sp = self.resolver(cal)
+                                if sp is not None and not sp.trusted:
+                                    seen.add(cal)
+                                    out.append(cal)
+                                    work.append(cal)
+        lemmas_used = set()
+        import re as _re
+        def uses_of(sp):
+            for u in list(getattr(sp, 'uses', [])) + list(getattr(sp, 'anchored', [])) + [a for lp in getattr(sp, 'loops', {}).values() for a in lp.asserts]:
+                m_ = _re.match(r'\s*(\w+)\s*\(', u.text)
+                if m_ and u.kind == 'use':
+                    yield m_.group(1)
+        for f in out:
+            sp = self.resolver(f)
+            if sp is not None:
+                lemmas_used |= set(uses_of(sp))
+        # lemmas may use lemmas
+        changed = True
+        while changed:
+            changed = False
+            for n in list(lemmas_used):
+                lem = self.specs.lemmas.get(n)
+                if lem:
+                    for n2 in uses_of(lem):
+                        if n2 not in lemmas_used:
+                            lemmas_used.add(n2)
+                            changed = True
         for n, lem in sorted(self.specs.lemmas.items()):
             if lem.trusted or lem.bounded:
                 continue
-            if prop is None or prop in lem.props:
+            if prop is None or prop in lem.props or n in lemmas_used:
                 out.append('lemma.' + n)
+        self.lemmas_used = lemmas_used
         return out
 
     def bounded_lemmas(self, prop=None):
-        return [lem for n, lem in sorted(self.specs.lemmas.items()) if lem.bounded and (prop is None or prop in lem.props)]
+        return [lem for n, lem in sorted(self.specs.lemmas.items()) if lem.bounded and (prop is None or prop in lem.props or n in getattr(self, 'lemmas_used', ()))]
 
     def check_bounded_lemma(self, lem, timeout, widen=0):
         """every shape in the lemma's box, contents symbolic; returns dict with counts and failures"""
